@@ -357,7 +357,9 @@ class Executor:
         prefix: Optional[List[int]] = None,
         max_paths: int = 4000,
         max_seconds: float = 30.0,
+        prefix_early_exit_ok: bool = False,
     ):
+        self.prefix_early_exit_ok = prefix_early_exit_ok
         assert mode in ("EXACT", "FREE")
         self.max_paths = max_paths
         self.max_seconds = max_seconds
@@ -426,8 +428,10 @@ class Executor:
         return self.results
 
     def _finish(self, st: _State, accepted: bool, cut: Optional[str] = None, why: str = "") -> None:
-        if self.prefix is not None and accepted and len(st.trace) < len(self.prefix):
-            accepted = False
+        if self.prefix is not None and accepted and len([e for e in st.trace if not e[2]]) < len(self.prefix):
+            # the execution ends before the dispatch path is completed: it does not start with the path
+            # (relaxed reading, used only to attribute KF-C12-early-exit-in-callee: ending inside a call is tolerated)
+            accepted = bool(self.prefix_early_exit_ok and st.entries)
         res = PathResult(accepted, list(st.trace), cut, None, list(st.abs_reads), why)
         if self.on_path is not None:
             self.on_path(res, st)
@@ -487,7 +491,8 @@ class Executor:
                 stack = tuple(V(v.t, None) for v in st.stack)
                 st = _replace(st, visits=visits, trace=st.trace + ((st.pc, st.act, st.entries),), stack=stack)
                 if self.prefix is not None:
-                    tr = [e[0] for e in st.trace]
+                    # the dispatch path is a path of the main graph: blocks of subroutine activations are skipped
+                    tr = [e[0] for e in st.trace if not e[2]]
                     m = min(len(tr), len(self.prefix))
                     if tr[:m] != self.prefix[:m]:
                         self._finish(st, False, why="off dispatch path")
